@@ -46,6 +46,8 @@ class Server:
         self.sent = []
         self.disconnect_pulled = False
         self.pull_log = []                               # (pulled_count_at_issue)
+        self.raises_when_gone = False
+        self.failed_sends = []
 
     def deliver(self):
         ev = self.future_events.popleft()
@@ -83,7 +85,12 @@ class Server:
         return dict(ev)
 
     async def send(self, ev):
-        # Daphne-like: a send after the client went away is swallowed, never an error
+        # swallow mode (Daphne-like): a send after the client went away is swallowed, never an error;
+        # raising mode (uvicorn-like, spec 2.4): it raises OSError once the disconnect has arrived
+        gone = self.disconnect_pulled or any(e['type'] == 'websocket.disconnect' for e in self.inbox)
+        if self.raises_when_gone and gone and ev.get('type') == 'websocket.send':    # (failing close events: C17)
+            self.failed_sends.append(ev)
+            raise OSError('client is gone')
         self.sent.append(ev)
 
     def pending_getters(self):
@@ -138,6 +145,7 @@ class Run:
         if with_disc:
             evs.append({'type': 'websocket.disconnect', 'code': 1001})
         self.server = Server(st.loop, evs)
+        self.server.raises_when_gone = (cap + k + len(script)) % 2 == 1      # both server behaviours, by configuration
         self.server.deliver()                      # the connect event is there from the start
         self.R = []                                # payloads handed to the application, in order
         self.outcomes = []                         # per step
@@ -412,6 +420,13 @@ class Run:
                                                        'in_op': self.in_op}))
             rec.count('mon.lost_wakeup')
         rec.count('mon.reader_progress_at_quiescence', self.quiescent_checks)
+        if self.server.raises_when_gone:
+            rec.count('cls.server_raises_when_client_gone')
+            data_failures = [e for e in self.server.failed_sends if e.get('type') == 'websocket.send']
+            if len(data_failures) > 1:
+                probs.append(('send-reached-lost-connection-again', {'failed_data_sends': len(data_failures)}))
+        else:
+            rec.count('cls.server_swallows_when_client_gone')
         for w in self.send_methods:
             rec.count('cls.send_method_%d' % w)
         for w in self.recv_methods:
@@ -664,7 +679,7 @@ def run(rec):
                 'iteration); exhaustive DFS with replay and state-signature pruning for small bounds, random walks beyond. '
                 'non-trivial = every completed schedule; distinct by (configuration, action word)')
     rec.assumptions = ['boundary bound is capacity+1: the pump holds one pulled event in hand while the queue is full (DESIGN C18)',
-                       'server swallows sends after the client went away (Daphne-like), so only the pump flag can tell a sender',
+                       'two server behaviours by configuration: sends after the client went away are swallowed (Daphne-like: only the pump flag can tell a sender) or raise OSError (uvicorn-like)',
                        'state-signature pruning treats runs with equal observable harness state as equivalent']
     quick = rec.tier == 'quick'
     st = aio.Stepper()
@@ -740,6 +755,8 @@ def run(rec):
     rec.floor('cls.responder_left_by_exception', 5)
     rec.floor('random.walks', 20)
     rec.floor('policy.walks', 40)
+    rec.floor('cls.server_raises_when_client_gone', 50)
+    rec.floor('cls.server_swallows_when_client_gone', 50)
     rec.floor('mon.reader_progress_at_quiescence', 200)
     for w in range(3):
         rec.floor('cls.send_method_%d' % w, 20)
